@@ -293,7 +293,9 @@ func (s *Server) Serve(c net.Conn) {
 	s.conns[id] = c
 	s.open++
 	s.mu.Unlock()
+	w := newAsyncWriter(c)
 	defer func() {
+		w.drain()
 		c.Close()
 		s.mu.Lock()
 		delete(s.conns, id)
@@ -301,7 +303,6 @@ func (s *Server) Serve(c net.Conn) {
 		s.mu.Unlock()
 	}()
 	r := bufio.NewReaderSize(c, 1<<16)
-	w := bufio.NewWriterSize(c, 1<<16)
 	hb := make([]byte, 24)
 	for {
 		if r.Buffered() == 0 {
@@ -502,4 +503,83 @@ func (s *Server) exec(h header, e *Entry) []byte {
 		return okResp(flagsExtra(it.Flags))
 	}
 	return fail(StUnknown)
+}
+
+// asyncWriter queues replies without bound and sends them from its own goroutine, so that the
+// server keeps reading requests while the client is not reading replies yet (a backend with ample
+// socket buffers: the chunked handler sends all the requests of a multi-chunk read before it reads
+// the first reply).
+type asyncWriter struct {
+	c    net.Conn
+	mu   sync.Mutex
+	cond *sync.Cond
+	buf  []byte
+	busy bool
+	done bool
+	err  error
+}
+
+func newAsyncWriter(c net.Conn) *asyncWriter {
+	w := &asyncWriter{c: c}
+	w.cond = sync.NewCond(&w.mu)
+	go w.run()
+	return w
+}
+
+func (w *asyncWriter) run() {
+	w.mu.Lock()
+	for {
+		for len(w.buf) == 0 && !w.done {
+			w.cond.Wait()
+		}
+		if len(w.buf) == 0 && w.done {
+			w.mu.Unlock()
+			return
+		}
+		b := w.buf
+		w.buf = nil
+		w.busy = true
+		w.mu.Unlock()
+		_, err := w.c.Write(b)
+		w.mu.Lock()
+		w.busy = false
+		if err != nil && w.err == nil {
+			w.err = err
+		}
+		w.cond.Broadcast()
+		if w.err != nil {
+			w.buf = nil
+		}
+	}
+}
+
+func (w *asyncWriter) Write(b []byte) (int, error) {
+	w.mu.Lock()
+	defer w.mu.Unlock()
+	if w.err != nil {
+		return 0, w.err
+	}
+	w.buf = append(w.buf, b...)
+	w.cond.Broadcast()
+	return len(b), nil
+}
+
+// Flush reports an earlier send error; the data is on its way already.
+func (w *asyncWriter) Flush() error {
+	w.mu.Lock()
+	defer w.mu.Unlock()
+	return w.err
+}
+
+// drain waits until everything queued has been handed to the socket (or failed), then stops the
+// sender. A peer that never reads is cut off after a few seconds.
+func (w *asyncWriter) drain() {
+	w.c.SetWriteDeadline(time.Now().Add(5 * time.Second))
+	w.mu.Lock()
+	for (len(w.buf) > 0 || w.busy) && w.err == nil {
+		w.cond.Wait()
+	}
+	w.done = true
+	w.cond.Broadcast()
+	w.mu.Unlock()
 }
